@@ -7,7 +7,7 @@ id="$1"; patch="$(readlink -f "$2")"; tier="${3:-quick}"
 lc=$(echo "$id" | tr 'A-Z' 'a-z')
 wt=$(mktemp -d /var/tmp/verif-mut.XXXXXX)
 root=$(mktemp -d /var/tmp/verif-mutroot.XXXXXX)
-trap 'git -C /repo worktree remove --force "$wt" >/dev/null 2>&1; rm -rf "$wt" "$root" scratch/*_var_tmp_verif-mut* scratch/mod-*_var_tmp_verif-mut*' EXIT
+trap 'git -C /repo worktree remove --force "$wt" >/dev/null 2>&1; tag=$(echo "$wt" | tr "/" "_"); rm -rf "$wt" "$root" scratch/*"$tag"* scratch/mod-*"$tag"*' EXIT
 git -C /repo worktree add --detach "$wt" >/dev/null 2>&1 || { echo "worktree failed"; exit 2; }
 git -C "$wt" apply "$patch" || { echo "PATCH-DOES-NOT-APPLY"; exit 2; }
 cp known_findings.json "$root/"
